@@ -160,22 +160,24 @@ def rtOp (c : RtCtx) (σ0 : CState) (σ : CState) (op : String) : CState :=
   | ["dump"] => { σ with log := σ.log.push s!"dump | {c.dump σ}" }
   | _ => { σ with log := σ.log.push s!"badop {op}" }
 
+/-- the state struct as the C driver leaves it before `start`: filled with 0xAA -/
+def driverFill (c : RtCtx) : CState :=
+  let pat : Int := 0xAAAAAAAAAAAAAAAA
+  { scalars := Array.ofFn (n := c.M.outs.size) fun i =>
+      match (c.M.outs.getD i default).ty with
+      | .bool => 170
+      | t => (t.cty c.ro.u8 c.ro.packed).wrap pat,
+    strs := Array.ofFn (n := c.M.outs.size) fun i =>
+      let t := (c.M.outs.getD i default).ty
+      { bytes := Array.replicate t.size none, counter := 0, alloc := .inStruct } }
+
 def cmdRt (args : List String) : String :=
   match args with
   | [opts, m, ops] =>
     match parseMachine m with
     | .ok M =>
       let c : RtCtx := { M := M, ro := parseRtOpts opts }
-      -- the driver fills the state struct with 0xAA before `start`
-      let pat : Int := 0xAAAAAAAAAAAAAAAA
-      let σ0 : CState := {
-        scalars := Array.ofFn (n := M.outs.size) fun i =>
-          match (M.outs.getD i default).ty with
-          | .bool => 170
-          | t => (t.cty c.ro.u8 c.ro.packed).wrap pat,
-        strs := Array.ofFn (n := M.outs.size) fun i =>
-          let t := (M.outs.getD i default).ty
-          { bytes := Array.replicate t.size none, counter := 0, alloc := .inStruct } }
+      let σ0 := driverFill c
       let σ := (splitOn ops ';').foldl (fun σ op => if op = "" then σ else rtOp c σ0 σ op) σ0
       " ## ".intercalate σ.log.toList
     | .error e => s!"error parse {e}"
@@ -195,6 +197,8 @@ def srcRunGo (c : RtCtx) (spec : SM Kont AEv Quest) (K : Kont) (σ : CState) (i 
   | [] => s!"alive after {i}"
   | x :: rest =>
     let (σ', l, code) := runOnStore c (spec.step K x) σ "?"
+    -- undefined behaviour in the user's own arithmetic: the binary may do anything
+    if σ'.fault.isSome then s!"ub at {i}" else
     match l with
     | .next K' => srcRunGo c spec K' σ' (i + 1) rest
     | .halt => s!"halt {code} at {i}"
@@ -210,7 +214,7 @@ def cmdSrcRun (args : List String) : String :=
       let o : SemOpts := { strictDone := false, substLast := true }
       let spec := Src.sm p o
       let word : List Nat := (splitOn w ' ').filterMap fun t => if t == "" then none else some t.toNat!
-      srcRunGo c spec spec.start (c.initStore {}) 0 word
+      srcRunGo c spec spec.start (c.initStore (driverFill c)) 0 word
     | .error e, _ => s!"error parseProg {e}"
     | _, .error e => s!"error parseMachine {e}"
   | _ => "error bad-args"
